@@ -386,6 +386,7 @@ class TermEngine:
             if u in self.state_out:
                 for l in loop_w[h]:
                     self.mu_update.setdefault((h, l), []).append(self.state_out[u].get(l, TOP))
+        self._refusing_gets()
         rets = [self.state_out[b].get(0, TOP) for b in cfg.returns if b in self.state_out]
         self.ret_by_block = {b: self.state_out[b].get(0, TOP) for b in cfg.returns if b in self.state_out}
         if len(set(rets)) == 1:
@@ -394,6 +395,33 @@ class TermEngine:
             self.ret = ("phi", -1, tuple((b, t) for b, t in self.ret_by_block.items()))
         else:
             self.ret = TOP
+
+    def _refusing_gets(self):
+        """`let Some(x) = tab.get(i) else { panic!(..) }` (or a `match` whose `None` arm diverges) refuses the same
+        indices as `tab[i]`: an Index call site is recorded next to the `get`, so that the rules about table accesses
+        read it like the indexing expression it replaces"""
+        cfg = self.cfg
+        extra = []
+        for cs in self.calls:
+            if cs.callee.name not in ("get", "get_mut") or len(cs.args) != 2 or cs.callee.local or \
+                    not ("slice" in cs.callee.key() or "Vec" in cs.callee.key()):
+                continue
+            for b, (c, vm) in self.switch_term.items():
+                if not (isinstance(c, tuple) and c and c[0] == "discr" and strip_refs(c[1]) == strip_refs(cs.term)):
+                    continue
+                t = self.fn.blocks[b]["term"]
+                none_tgts = [s_ for v, s_ in t["targets"] if v == "0"]
+                if not none_tgts and t.get("otherwise") is not None and all(v != "0" for v, _ in t["targets"]):
+                    none_tgts = [t["otherwise"]]
+                if none_tgts and not any(cfg.can_reach(nt, r) or nt == r for nt in none_tgts for r in cfg.returns):
+                    mut_ = cs.callee.name == "get_mut"
+                    callee = Callee({"def": "std::ops::IndexMut::index_mut" if mut_ else "std::ops::Index::index",
+                                     "res": "<std::vec::Vec<T, A> as std::ops::IndexMut<I>>::index_mut" if mut_ else
+                                            "<std::vec::Vec<T, A> as std::ops::Index<I>>::index",
+                                     "trait": "std::ops::IndexMut" if mut_ else "std::ops::Index", "local": False})
+                    extra.append(CallSite(self.fn, cs.bb, callee, cs.args, cs.dest, ("call", callee, cs.args), cs.line, cs.exp, cs.arg_ops))
+                    break
+        self.calls += extra
 
     def _edge_of(self, d, p, j):
         """Which successor edge(s) of switch block d does the path d ->* p -> j use?
@@ -637,6 +665,20 @@ class TermEngine:
                 ft = self._operand(st, t["fnop"])
                 callee = Callee({"def": "<indirect>", "res": None, "local": False})
                 callee.targs = [repr(ft)]
+            # `tab.get(i).expect("..")` / `.unwrap()` is the indexing expression `tab[i]` with a better message: it refuses
+            # the same indices.  Seen as the Index call it stands for, every rule about table accesses reads it.
+            if callee.name in ("unwrap", "expect", "unwrap_unchecked") and "ption" in (callee.def_ or "") and args:
+                g = args[0]
+                while isinstance(g, tuple) and g and g[0] in ("ref", "deref"):
+                    g = g[1]
+                if isinstance(g, tuple) and g and g[0] == "call" and g[1].name in ("get", "get_mut") and len(g[2]) == 2 and \
+                        ("slice" in g[1].key() or "Vec" in g[1].key()) and not g[1].local:
+                    mut_ = g[1].name == "get_mut"
+                    callee = Callee({"def": "std::ops::IndexMut::index_mut" if mut_ else "std::ops::Index::index",
+                                     "res": "<std::vec::Vec<T, A> as std::ops::IndexMut<I>>::index_mut" if mut_ else
+                                            "<std::vec::Vec<T, A> as std::ops::Index<I>>::index",
+                                     "trait": "std::ops::IndexMut" if mut_ else "std::ops::Index", "local": False})
+                    args = tuple(g[2])
             site = (b,)
             nm = callee.name
             term = None
